@@ -16,7 +16,9 @@
    One action per statement of the body:
      Use(p)     f(<p>) with f taking its argument @owned        (function.py trace_call)
      Borrow(p)  f(<p>) with f borrowing its argument            (trace_call + unpacking.py update_packed_value)
-     Mut(op,p)  a mutating list method / item assignment on the list at p  (frozenlist.py)
+     Mut(op,p)  a mutating list method / item assignment on the list at p  (frozenlist.py);
+                every way Python offers to change a list in place: the 11 methods and
+                operators frozenlist overrides plus re-initialisation l.__init__(...)
      SetAttr    attribute assignment on the struct at p         (GuppyStructObject.__setattr__)
      Finish(r)  `return <r>` or falling off the end             (function.py trace_function:
                 pack + use the return value, pack + use every borrowed argument and
@@ -50,7 +52,7 @@ CONSTANTS Types,      \* subset of {"Q","I","F","AQ","AI","TQ","SQ","SA","TA"}
           Emit
 
 AllMutOps == {"append", "extend", "insert", "pop", "popuse", "remove", "clear", "sort", "reverse",
-              "setitem", "setalias", "delitem", "iadd", "imul1", "imul2"}
+              "setitem", "setalias", "delitem", "iadd", "imul1", "imul2", "reinit"}
 ASSUME MutOps \subseteq AllMutOps
 AttrOps == {"setattr_same", "setattr_fresh", "setattr_alias"}
 Paths == {<<>>, <<1>>, <<2>>, <<1, 1>>, <<1, 2>>}
@@ -207,7 +209,7 @@ ListEffect(op, s, f) ==
       [] op \in {"remove", "delitem"} -> Tail(s)
       [] op = "clear"    -> <<>>
       [] op \in {"sort", "imul1"} -> s
-      [] op = "reverse"  -> Rev(s)
+      [] op \in {"reverse", "reinit"} -> Rev(s)      \* reinit: l.__init__(l[::-1])
       [] op = "setitem"  -> <<f>> \o Tail(s)
       [] op = "setalias" -> <<s[2]>> \o Tail(s)
       [] op = "imul2"    -> s \o s
